@@ -355,7 +355,9 @@ def removeTrigger (w : World) (u : Uid) (i : Nat) : Except Err (World × Addr) :
     match renumber 0 l w.heap [] with
     | none => .error .badRef
     | some (h1, d) =>
-      match relink d l h1 with
+      -- since the repair of F4 an effect that pointed at the removed trigger (id `i`) is reset to -1
+      -- (`if effect.trigger_id in removing_trigger_ids: effect.trigger_id = -1`), which takes precedence over the renumbering dict (`dictGet` = last entry wins)
+      match relink (d ++ [(((i : Nat) : Int), (-1 : Int))]) l h1 with
       | none => .error .badRef
       | some h2 => .ok ({ w with heap := h2, trigsOf := setFn w.trigsOf u l }, a)
 
